@@ -96,6 +96,58 @@ REQUIRED = ["exclusive:opposite-present", "link-at-own-marker:link", "link-at-ow
             "read-without-identifier-file:empty", "id-returned"]
 
 
+def selftests(traces):
+    """Binding self-test (R5): copies of recorded histories with ONE observation corrupted; the trace
+    specification must reject each at that step with the named clause, else the machinery is vacuous."""
+    import copy
+    want = {}
+    out = []
+
+    def add(tag, t, i, clause, mutate):
+        if "selftest/" + tag in want:
+            return
+        c = copy.deepcopy(t)
+        c["id"] = "selftest/" + tag
+        mutate(c["events"][i])
+        want[c["id"]] = (i + 1, clause)
+        out.append(c)
+
+    for t in traces:
+        pre = t["init"]
+        for i, e in enumerate(t["events"]):
+            if e["op"] == "Register" and pre["dir"]["main"] != "absent":
+                add("both-markers", t, i, "MarkersExclusive",
+                    lambda ev: (ev["post"]["reg"].update(main="file"), ev["post"]["unreg"].update(main="file")))
+                if pre["reg"]["main"] in ("link", "dangling"):
+                    add("link-kept", t, i, "LinkReplaced", lambda ev: ev["post"]["reg"].update(main="link"))
+                    add("target-written", t, i, "NotFollowed",
+                        lambda ev: ev["post"]["tgt"]["main"]["reg"].update(live="changed"))
+            if e["op"] == "ReadId" and has_id(pre["idf"]) and e["ret"]["k"] == "id":
+                other = "00000000-0000-4000-8000-000000000000"
+                add("other-id", t, i, "IdStable", lambda ev: ev["ret"].update(s=other, chars=list(other)))
+                add("touched", t, i, "ReadDoesNotRewrite", lambda ev: ev.update(touched=True))
+                add("upper", t, i, "IdCanonical",
+                    lambda ev: ev["ret"].update(chars=[ch.upper() for ch in ev["ret"]["chars"]]))
+                if pre["idf"]["form"] == "legacy":
+                    add("normalised", t, i, "ReadDoesNotRewrite",
+                        lambda ev: ev["post"]["idf"].update(form="canonical"))
+            pre = e["post"]
+        if len(want) == 7:
+            break
+    return out, want, 7 - len(want)
+
+
+def check_selftests(val, want):
+    """Remove the self-test rejections from the validation result; fail if a corruption went unnoticed."""
+    mine = [r for r in val["rejected"] if r["id"].startswith("selftest/")]
+    val["rejected"] = [r for r in val["rejected"] if not r["id"].startswith("selftest/")]
+    for tid, (line, clause) in sorted(want.items()):
+        if not any(r["id"] == tid and r["line"] == line and r["clause"].startswith(clause) for r in mine):
+            raise lib.MachineryError("self-test: corrupted history %s was not rejected at step %d by %s (got %s)"
+                                     % (tid, line, clause, [r for r in mine if r["id"] == tid]))
+    return len(want)
+
+
 def emit_all(tier, rng):
     gen = lib.subdir("c17cfg")
     jobs = []
@@ -179,6 +231,7 @@ def judge(prop, verdict, val, traces, cases):
 
 
 def run(prop, tier):
+    verdict = lib.Verdict(prop, tier)       # starts the wall clock of the evidence record
     rng = random.Random(lib.seed())
     t0 = time.time()
     full = lib.require_ok(lib.run_tlc("ClientState", "ClientState_full.cfg", workers=4, coverage=True,
@@ -200,14 +253,19 @@ def run(prop, tier):
     if not stats.get("rhsm_calls"):
         print("note: the subscription identity stub was never consulted")
     t1 = time.time()
-    val = lib.validate_traces("ClientStateTrace", "ClientStateTrace.cfg", traces, jobs=min(lib.NCPU, 8))
+    corrupted, want, lacking_self = selftests(traces)
+    val = lib.validate_traces("ClientStateTrace", "ClientStateTrace.cfg", traces + corrupted, jobs=min(lib.NCPU, 8))
     print("timing: validation %.1fs (%d events, %d JVMs)" % (time.time() - t1, val["events"], val["jvms"]))
-    if val["events"] != sum(len(t["events"]) for t in traces):
+    if val["events"] != sum(len(t["events"]) for t in traces + corrupted):
         raise lib.MachineryError("trace validation judged %d of %d events"
-                                 % (val["events"], sum(len(t["events"]) for t in traces)))
+                                 % (val["events"], sum(len(t["events"]) for t in traces + corrupted)))
+    nself = check_selftests(val, want)
+    val["traces"] -= len(corrupted)
+    val["events"] -= sum(len(t["events"]) for t in corrupted)
 
-    verdict = lib.Verdict(prop, tier)
     notes = judge(prop, verdict, val, traces, cases)
+    if lacking_self and not verdict.violations:
+        raise lib.MachineryError("self-test: no recorded history to corrupt for %d of 7 mutations" % lacking_self)
 
     counts = collections.defaultdict(int)
     nontrivial = set()
@@ -240,6 +298,7 @@ def run(prop, tier):
         samples=samples, assumptions=ASSUMPTIONS,
         extra=dict(histories_emitted=emitted, operations_replayed=stats, antecedents_exercised=counts,
                    design_divergence_notes=notes, model_action_coverage=full.coverage,
+                   selftest_corrupted_traces_rejected=nself,
                    clauses=["MarkersExclusive", "LinkReplacedNotFollowed", "IdCanonical", "IdStable",
                             "ReadDoesNotRewrite"],
                    exhaustive=False))
